@@ -127,7 +127,7 @@ class DiagnosticStatusResponse(ModbusResponse):
             word_len += 1
             data = data + b'0'
         data = struct.unpack('>' + 'H'*word_len, data)
-        self.sub_function_code, self.message = data[0], data[1:]
+        self.sub_function_code, self.message = data[0], list(data[1:])
 
 
 class DiagnosticStatusSimpleRequest(DiagnosticStatusRequest):
